@@ -68,7 +68,9 @@ ZSTD_compressSubBlock_literal(const HUF_CElt* hufTable,
     assert(litSize > 0);
     assert(hufMetadata->hType == set_compressed || hufMetadata->hType == set_repeat);
 
+    RETURN_ERROR_IF(dstSize < lhSize, dstSize_tooSmall, "not enough space for literals header");
     if (writeEntropy && hufMetadata->hType == set_compressed) {
+        RETURN_ERROR_IF((size_t)(oend-op) < hufMetadata->hufDesSize, dstSize_tooSmall, "not enough space for Huffman table description");
         ZSTD_memcpy(op, hufMetadata->hufDesBuffer, hufMetadata->hufDesSize);
         op += hufMetadata->hufDesSize;
         cLitSize += hufMetadata->hufDesSize;
